@@ -266,6 +266,18 @@ def extract_weights(
     return weights_array
 
 
+def _accumulator_dtype(weights_dtype: np.dtype) -> np.dtype:
+    """Type in which weights (and their squares) are summed, unless a dtype is asked for.
+
+    As numpy's own sum does for integers: at least 64 bits, so that a handful of
+    int16 / int32 weights (or their squares) cannot wrap around in the sums.
+    """
+    weights_dtype = np.dtype(weights_dtype)
+    if weights_dtype.kind in "iu":
+        return np.result_type(weights_dtype, np.int64)
+    return weights_dtype
+
+
 @overload
 def calculate_nd_frequencies(
     data: np.ndarray,
@@ -341,7 +353,7 @@ def calculate_nd_frequencies(
                     "Integer histogram requested but float weights entered."
                 )
         else:
-            dtype = weights.dtype
+            dtype = _accumulator_dtype(weights.dtype)
 
     edges_and_mask = [binning.numpy_bins_with_mask for binning in binnings]
     edges = [em[0] for em in edges_and_mask]
@@ -361,7 +373,9 @@ def calculate_nd_frequencies(
             missing = weights.dtype.type(0)
         else:
             missing = weights.sum() - frequencies.sum()
-        err_freq, _ = np.histogramdd(data, edges, weights=weights**2)
+        # (The squares of narrow integers would wrap around in their own type)
+        wide_weights = weights.astype(_accumulator_dtype(weights.dtype), copy=False)
+        err_freq, _ = np.histogramdd(data, edges, weights=wide_weights**2)
         errors2 = err_freq[ixgrid].astype(dtype)  # Automatically copy
     else:
         missing = data.shape[0] - frequencies.sum()
@@ -449,9 +463,14 @@ def calculate_1d_frequencies(
         equal_weights = True
 
     # Prepare dtype
-    inferred_dtype: np.dtype = np.dtype(dtype or weights_array.dtype)
+    inferred_dtype: np.dtype = np.dtype(dtype or _accumulator_dtype(weights_array.dtype))
     if inferred_dtype.kind in "iu" and weights_array.dtype.kind == "f":
         raise ValueError("Integer histogram requested but float weights entered.")
+    # Sum the weights and their squares in the type of the result (or wider),
+    # not in the possibly much narrower type they happen to come in
+    weights_array = weights_array.astype(
+        np.result_type(_accumulator_dtype(weights_array.dtype), inferred_dtype), copy=False
+    )
 
     # Data sorting
     if not already_sorted:
